@@ -289,12 +289,14 @@ class BoundedGaussian(Gaussian):
             return super().prob(p)
 
     def sample(self, size=None):
+        if size is None:
+            return self.sample(1)[0]
         val = super().sample(size)
-        out = True
+        out = np.logical_or(val < self.lower_bound, val > self.upper_bound)
         while np.any(out):
-            out = np.logical_or(val < self.lower_bound, val > self.upper_bound)
-            out = np.where(out)
-            val[out] = super().sample(len(out[0]))
+            val[out] = super().sample(out.sum())
+            out = np.logical_or(val < self.lower_bound,
+                                val > self.upper_bound)
         return val
 
 
